@@ -1,7 +1,7 @@
 /* C03: public API call sequences on arbitrary bytes offered as a zchunk file, run under
    ASan/UBSan with a watchdog.  One case per line:
      F <file hex> <src hex|-> <ops>
-   ops: comma list: r<size> read to end with that buffer size | v validate_checksums |
+   ops: comma list: r<size> read to end with that buffer size | p<size> one zck_read | v validate_checksums |
         d validate_data_checksum | f find_valid_chunks | g<k> chunk data | c<k> stored chunk data |
         m missing range + range string | l lengths | k copy chunks from src | h hashdb |
         q zck_close | i iterate getters                                                  */
@@ -44,6 +44,9 @@ int main(void) {
                 size_t bs = a > 0 ? (size_t)a : 1; char *buf = malloc(bs); ssize_t r; size_t tot = 0; long calls = 0;
                 while((r = zck_read(zck, buf, bs)) > 0 && calls++ < 2000000) tot += r;
                 printf(" r=%zd/%zu", r, tot); free(buf); break; }
+            case 'p': {   /* one zck_read call (may stop inside a chunk) */
+                size_t bs = a > 0 ? (size_t)a : 1; char *buf = malloc(bs);
+                printf(" p=%zd", zck_read(zck, buf, bs)); free(buf); break; }
             case 'v': printf(" v=%d", zck_validate_checksums(zck)); break;
             case 'd': printf(" d=%d", zck_validate_data_checksum(zck)); break;
             case 'f': printf(" f=%d", zck_find_valid_chunks(zck)); break;
